@@ -44,6 +44,74 @@ thread_local! {
     pub static IS_MAIN: std::cell::Cell<bool> = std::cell::Cell::new(false);
 }
 
+// ---- lock-discipline monitor: the model's calls are atomic because every mutation of the persisted state
+// (state.json, patches_state.json, patches/) happens while the calling thread holds the config lock.  When the
+// interposer (shim/shim.c) is preloaded it reports every mutating file-system call here; one made by the
+// library without the lock is recorded and printed as an UNLOCKED-WRITE line.
+thread_local! {
+    pub static HARNESS_FS: std::cell::Cell<u32> = std::cell::Cell::new(0);
+}
+pub static UNLOCKED: Mutex<Vec<String>> = Mutex::new(Vec::new());
+pub static CUR_OP: Mutex<(String, usize)> = Mutex::new((String::new(), 0));
+pub static ROOT: Mutex<String> = Mutex::new(String::new());
+
+/// the harness's own file-system work (set-up, damage ops, clean-up) is not the library's
+pub struct HarnessFs;
+impl HarnessFs {
+    pub fn new() -> Self {
+        HARNESS_FS.with(|c| c.set(c.get() + 1));
+        HarnessFs
+    }
+}
+impl Drop for HarnessFs {
+    fn drop(&mut self) {
+        HARNESS_FS.with(|c| c.set(c.get().saturating_sub(1)));
+    }
+}
+
+extern "C" fn uvh_fs_event(what: *const std::os::raw::c_char, path: *const std::os::raw::c_char) {
+    if HARNESS_FS.try_with(|c| c.get()).unwrap_or(1) > 0 {
+        return;
+    }
+    let p = unsafe { CStr::from_ptr(path) }.to_string_lossy().into_owned();
+    let base = p.rsplit('/').next().unwrap_or("");
+    let state = base == "state.json" || base == "patches_state.json" || p.contains("/patches/") || p.ends_with("/patches");
+    if !state || verif_cfg_depth() > 0 {
+        return;
+    }
+    let root = match ROOT.try_lock() {
+        Ok(r) => r.clone(),
+        Err(_) => return,
+    };
+    if root.is_empty() || !p.starts_with(&root) {
+        return;
+    }
+    let rel = match p.find("/storage/") {
+        Some(i) => p[i + 1..].to_string(),
+        None => p[root.len()..].to_string(),
+    };
+    let w = unsafe { CStr::from_ptr(what) }.to_string_lossy().into_owned();
+    let (h, k) = CUR_OP.lock().map(|c| c.clone()).unwrap_or_default();
+    let line = format!("hist={} op={} {} {}", h, k, w, rel);
+    if let Ok(mut v) = UNLOCKED.lock() {
+        if !v.contains(&line) {
+            v.push(line);
+        }
+    }
+}
+
+/// registers the observer with the preloaded interposer, if there is one
+pub fn register_fs_observer(root: &Path) {
+    *ROOT.lock().unwrap() = root.to_string_lossy().into_owned();
+    unsafe {
+        let f = libc::dlsym(libc::RTLD_DEFAULT, b"shim_register_fs_callback\0".as_ptr() as *const _);
+        if !f.is_null() {
+            let reg: extern "C" fn(extern "C" fn(*const std::os::raw::c_char, *const std::os::raw::c_char)) = std::mem::transmute(f);
+            reg(uvh_fs_event);
+        }
+    }
+}
+
 fn act(tok: &str) {
     if IS_MAIN.with(|m| m.get()) {
         ACT.lock().unwrap().push(tok.to_string());
@@ -505,6 +573,7 @@ impl World {
         }
     }
     pub fn start_history(&mut self, name: &str) {
+        let _hfs = HarnessFs::new();
         verif_reset_config();
         let h = self.root.join(format!("h_{}", name));
         let _ = std::fs::remove_dir_all(&h);
@@ -669,6 +738,7 @@ impl World {
     }
 
     pub fn damage(&mut self, toks: &[&str]) {
+        let _hfs = HarnessFs::new();
         let pdir = |n: &str| self.storage.join("patches").join(n);
         match toks {
             ["delfile", n] => {
@@ -955,6 +1025,7 @@ pub fn main(args: &[String]) -> i32 {
     let opfile = &args[0];
     let root = PathBuf::from(&args[1]);
     std::fs::create_dir_all(&root).unwrap();
+    register_fs_observer(&root);
     let text = std::fs::read_to_string(opfile).expect("op file");
     let mut w = World::new(&root);
     let keep = std::env::var("UVH_KEEP").is_ok();
@@ -975,8 +1046,10 @@ pub fn main(args: &[String]) -> i32 {
         match toks[0] {
             "history" => {
                 if let (Some(h), false) = (&cur_hist, keep) {
+                    let _hfs = HarnessFs::new();
                     let _ = std::fs::remove_dir_all(h);
                 }
+                *CUR_OP.lock().unwrap() = (toks[1].to_string(), 0);
                 w.start_history(toks[1]);
                 cur_hist = Some(w.storage.parent().unwrap().to_path_buf());
                 writeln!(out, "history {}", toks[1]).unwrap();
@@ -996,6 +1069,7 @@ pub fn main(args: &[String]) -> i32 {
             "stall" => {
                 crate::sched::STALL.store(toks[1] == "on", std::sync::atomic::Ordering::SeqCst);
             }
+            "faultspec" => {}
             "dls" => {
                 dls_on = toks[1] == "on";
             }
@@ -1017,6 +1091,7 @@ pub fn main(args: &[String]) -> i32 {
                 LOG.lock().unwrap().clear();
                 ACT.lock().unwrap().clear();
                 op_index += 1;
+                CUR_OP.lock().unwrap().1 += 1;
                 let arm = cut_op == Some(op_index);
                 if arm {
                     std::env::set_var("SHIM_PREFIX", w.storage.to_str().unwrap());
@@ -1051,6 +1126,7 @@ pub fn main(args: &[String]) -> i32 {
             "order" => {
                 let order: Vec<usize> = toks[1].split(',').filter(|x| !x.is_empty()).map(|x| x.parse().unwrap()).collect();
                 LOG.lock().unwrap().clear();
+                CUR_OP.lock().unwrap().1 += 1;
                 let outs = crate::sched::run(&w, std::mem::take(&mut sched_threads), &order);
                 if tracing {
                     updater::verif::verif_set_sync_hook(Some(trace_hook));
@@ -1066,7 +1142,11 @@ pub fn main(args: &[String]) -> i32 {
         }
     }
     if let (Some(h), false) = (&cur_hist, keep) {
+        let _hfs = HarnessFs::new();
         let _ = std::fs::remove_dir_all(h);
+    }
+    for x in UNLOCKED.lock().unwrap().iter() {
+        writeln!(out, "UNLOCKED-WRITE {}", x).unwrap();
     }
     let v = DEPTH_VIOLATIONS.lock().unwrap();
     for x in v.iter() {
